@@ -8,6 +8,8 @@ pub mod c21;
 pub mod c26;
 pub mod c22;
 pub mod c34;
+pub mod c29;
+pub mod c30;
 
 pub fn for_property(p: &str) -> Vec<Suite> {
     match p {
@@ -21,6 +23,8 @@ pub fn for_property(p: &str) -> Vec<Suite> {
         "C15" => c12::suites_c15(),
         "C22" => c22::suites(),
         "C34" => c34::suites(),
+        "C29" => c29::suites(),
+        "C30" => c30::suites(),
         _ => vec![],
     }
 }
@@ -30,6 +34,7 @@ pub fn extract_all(dir: &Path) {
     c09::extract(dir);
     c16::extract(dir);
     c22::extract(dir);
+    c30::extract(dir);
 }
 
 #[allow(dead_code)]
